@@ -15,7 +15,21 @@ use crate::util::{hex, panic_msg, unhex, unhex_str};
 use brush_builtins::ShellBuilderExt;
 use std::io::Write;
 
+/// A runaway parse (e.g. the tokenizer hang on an empty quoted here-document tag reported for C19)
+/// must die instead of exhausting the machine: cap the address space of this harness process.
+fn limit_memory() {
+    let lim = libc::rlimit {
+        rlim_cur: 6 << 30,
+        rlim_max: 6 << 30,
+    };
+    // SAFETY: plain setrlimit call with a valid struct; failure is ignored.
+    let _ = unsafe { libc::setrlimit(libc::RLIMIT_AS, &lim) };
+}
+
 pub fn run(sub: &str, cases: &[Vec<String>]) -> bool {
+    if sub.starts_with("c15") {
+        limit_memory();
+    }
     match sub {
         "c15cls" => each(cases, cls),
         "c15chunks" => each(cases, chunks),
